@@ -798,7 +798,11 @@ rt_prop("C06", ["cancel", "task"],
         "an aborted command drops all tasks without calling the task layer at all and is done as soon as its queues are empty "
         "(abort_drops_all_tasks, abort_polls_nothing, abort_done); a late resolve of cancelled work is rejected (stream) or accepted "
         "and discarded (one-shot) without touching the consumer's channel, never a panic outcome (late_resolve_inert); a dropped "
-        "request cannot be resolved (dropped_request_unresolvable). Non-interference with siblings is stated "
+        "request cannot be resolved (dropped_request_unresolvable). CONTAINMENT (global invariant over every history of the direct "
+        "host of any command with any nesting of combinators, Lemmas/HostLt*.lean: hosted commands have smaller indices than "
+        "their hosts): hosting_ordered_over_runs; run_is_contained — settling command c, whatever its tasks host, run, cancel, "
+        "abort or drop recursively, leaves the task slab and spawn queue of every command above c (its host, the host's host …) "
+        "untouched; drop_is_contained; poll_keeps_own_slab. Non-interference with siblings in terms of outputs is stated "
         "(siblings_unaffected_goal), covered by the `cancel` profile of the correspondence.",
         goals=["siblings_unaffected_goal"])
 def _add_ext_stream():
